@@ -409,10 +409,18 @@ def wrap(ctx, jm: JoinModel, rule: str = "e.wrap") -> None:
         o = it.objs[rc[1]]
         if o.init:
             problems.append(("the result column list does not start empty", o.node))
+        own = [(rc, e) for e in elements(it, rc) if not (e.kind == "call" and e.term[1][0] == "attr" and e.term[1][2] == "extend")]
+        extended = []
         for e in it.events:
             if e.kind == "call" and e.term[1][0] == "attr" and e.term[1][1] == rc and e.term[1][2] != "append":
+                g = e.term[2][0] if len(e.term[2]) == 1 and not e.term[3] else None
+                if e.term[1][2] == "extend" and g is not None and g[0] == "obj" and it.objs[g[1]].kind in ("genexp", "listcomp") \
+                        and tuple(e.conds) == tuple(o.conds):
+                    # result_cols.extend(Vector(...) for ... in ...): every element of the comprehension is appended, in order
+                    extended += [(g, x) for x in elements(it, g)]
+                    continue
                 problems.append((f"result column list is modified by .{e.term[1][2]}()", e.node))
-        all_elements += [(rc, e) for e in elements(it, rc)]
+        all_elements += own + extended
     for rc, e in all_elements:
         o = it.objs[rc[1]]
         v = e.value if e.kind == "elem" else (e.term[2][0] if e.kind == "call" and len(e.term[2]) == 1 else None)
